@@ -274,6 +274,37 @@ def r5_state_keys(a, tier):
                 isinstance(n, ast.Call) and dotted(n.func) == 'super().__setstate__' for n in walk_no_defs(s.node))
             if not generic:
                 rep.fail(ci.qualname, f'state-key-unread:{k}', f'{ci.name}.__getstate__ writes {k!r}, __setstate__ never reads it', s.loc)
+        # the configuration object a model carries: __getstate__ then __setstate__ (interpreted) give back every setting, the ones
+    # that were switched OFF explicitly (False, '', 0, empty tuple) and the tri-state None included
+    from ..minieval import Obj, Unsupported
+    from ..modelinterp import Hook, ModelInterp, Stub
+    cq = 'tatsu.util.configs.Config'
+    gs, ss = a.p.func(f'{cq}.__getstate__'), a.p.func(f'{cq}.__setstate__')
+    settings = {'whitespace': '', 'nameguard': False, 'left_recursion': False, 'memoization': True, 'namechars': '', 'keywords': (),
+                'comments': None, 'perlinememos': 0, 'name': 'g', 'semantics': None, 'parseinfo': False, 'start': 'expr'}
+    me = Stub(cq, asdict=Hook(lambda: dict(settings)), **settings)
+    fresh = Stub(cq)
+    try:
+        it = ModelInterp(a, {'types': Obj(ModuleType=type(ast))})
+        state = it.call_fn(gs, [me])
+
+        class _SetI(ModelInterp):
+            def call(self, e, env):
+                if dotted(e.func) == 'object.__setattr__' and len(e.args) == 3:
+                    o, k, v = (self.expr(x, env) for x in e.args)
+                    o._attrs[k] = v
+                    return None
+                return super().call(e, env)
+        _SetI(a, {'types': Obj(ModuleType=type(ast))}).call_fn(ss, [fresh, state])
+    except Unsupported as e:
+        raise AnalysisError(f'cannot interpret Config.__getstate__/__setstate__: {e}') from e
+    lost = {k: v for k, v in settings.items() if k not in fresh._attrs or fresh._attrs[k] != v or type(fresh._attrs[k]) is not type(v)}
+    rep.add({'config_state_round_trip': {k: repr(v) for k, v in settings.items()}, 'settings_not_restored': sorted(lost)})
+    for k, v in sorted(lost.items(), key=lambda kv: kv[0]):
+        rep.fail(f'{cq}.__getstate__', f'state-lost:{k}', f'a configuration with {k}={v!r} comes back from pickle without that setting '
+                 f'({"missing: the class default applies" if k not in fresh._attrs else "as " + repr(fresh._attrs[k])}): a reloaded model '
+                 f'whose grammar switched the feature off (e.g. @@whitespace :: None, @@nameguard :: False) accepts different inputs',
+                 gs.loc)
     return rep
 
 
